@@ -614,3 +614,143 @@ Theorem C11_itrack_sample_nr_at_time : forall tb, C09Spec.consistent tb = true -
   = stts_get_sample_nr_at_time (t_stts_count tb) (t_stts_delta tb) t.
 Proof. exact get_sample_nr_at_time_bridge. Qed.
 Print Assumptions C11_itrack_sample_nr_at_time.
+
+(* ---- combine-segs end to end at the decoded level (examples/combine-segs/main.go) ----
+   Inputs: any number k >= 1 of decoded single-track media files, each with the trex of its own init segment; output
+   track ids pairwise different, one per file.  Hypotheses on the INPUT only: every file is what the tool accepts (one
+   segment, one fragment, one traf: single_frag), the trex names the traf's track, sizes are uint32 and tfdt uint64
+   (din_wf, what DecodeFile guarantees), a reader with the init segment can read the file (read_input = Ok l), the
+   whole input stays below 2 GiB (int32 trun data offsets, C05-F5), and the guard of the property text: NO trun relies
+   on trex defaults (no_trex_reliance; any mixture of trun / tfhd flag usage, any number of truns, any base-data-offset
+   mode).  Then combineMediaSegments + MediaSegment.Encode DO return without error, and reading track ids[i] of the
+   decoded output with the combined init's trex (whatever defaults dd ds df it carries) returns exactly the samples a
+   reader of input i saw: bytes, size, duration, flags, composition offset and decode time, in order, none dropped. *)
+From V.c11 Require Import C11CombModel C11CombProofs.
+Theorem C11_combine_end_to_end : forall (ids : list N) (ins : list cinput) (ls : list (list C05Model.fullsample)) pos0,
+  NoDup ids -> ins <> [] -> length ids = length ins ->
+  Forall input_ok ins ->
+  Forall2 (fun x l => read_input (snd x) (fst x) = Ok l) ins ls ->
+  64 * fulls_count ls + fulls_bytes ls + 40 * lenN ids + 200 < 2147483648 -> pos0 < 4611686018427387904 ->
+  exists fe, combine_media ids (map fst ins) = Ok fe /\
+             Forall2 (fun T l => forall dd ds df, read_output T dd ds df pos0 fe = Ok l) ids ls.
+Proof. exact combine_end_to_end. Qed.
+Print Assumptions C11_combine_end_to_end.
+
+(* the guard is stated exactly: a trun satisfies trun_indep iff AddSampleDefaultValues gives the same samples with
+   every trex as with trex = nil (the tool's call) *)
+Theorem C11_combine_guard_exact : forall h r,
+  trun_indep h r = true <-> (forall tx, resolve h (Some tx) r = resolve h None r).
+Proof. intros h r. split; [intros H tx; exact (trun_indep_resolve h r tx H)|exact (trun_indep_exact h r)]. Qed.
+Print Assumptions C11_combine_guard_exact.
+
+(* C05's round-trip hypotheses hold of EVERY decoded input that reads without error: Size = len(Data) and decode
+   times consistent with the durations (so they are not assumptions of C11_combine_end_to_end) *)
+Theorem C11_combine_read_hyps : forall d tx l,
+  no_trex_reliance d = true -> din_wf d = true -> tx_track tx = din_track d ->
+  get_full_samples d (Some tx) = Ok l ->
+  get_full_samples d None = Ok l /\ Forall C05ReadProofs.sized_f l /\ C05RoundProofs.consistent l.
+Proof. exact read_guarded. Qed.
+Print Assumptions C11_combine_read_hyps.
+
+(* without the guard the statement is false (all other hypotheses hold): the trun has no duration flag, the tfhd no
+   default duration, the init's trex says 10; the tool writes durations 0 and decode times 100, 100 instead of 100, 110.
+   Replayed on the built tool: search class combine-segs-trex/..., harness witness combx|...|defaults=3 *)
+Theorem C11_combine_unguarded_refuted :
+  exists (x : cinput) l fe,
+    (exists d, single_frag (fst x) = Ok d /\ din_wf d = true /\ tx_track (snd x) = din_track d /\ no_trex_reliance d = false) /\
+    read_input (snd x) (fst x) = Ok l /\ combine_media [1] [fst x] = Ok fe /\
+    exists l', read_output 1 10 0 0 24 fe = Ok l' /\ l' <> l /\ map C05Model.fs_data l' = map C05Model.fs_data l.
+Proof. exact combine_unguarded_refuted. Qed.
+Print Assumptions C11_combine_unguarded_refuted.
+
+(* the hypotheses are satisfiable: video with two truns (the first with first-sample-flags + tfhd default flags and
+   duration, base-data-offset in the tfhd), audio with everything per sample; ids 1 and 2; conclusion computed too *)
+Definition ex_comb_v : dfrag :=
+  mkDfrag [mkTraf (mkTfhd 41 7 1000 0 10 0 16842752) (mkTfdt 0 500)
+             [mkTrun 0 517 108 33554432 [mkSample 33554432 0 2 0; mkSample 0 0 1 0] 0;
+              mkTrun 0 3841 111 0 [mkSample 16842752 12 1 3%Z] 0] 0]
+          [1; 2; 3; 4] 1000 1108.
+Definition ex_comb_a : dfrag :=
+  mkDfrag [mkTraf (mkTfhd 131072 9 0 0 0 0 0) (mkTfdt 0 0)
+             [mkTrun 0 1793 100 0 [mkSample 33554432 1024 1 0; mkSample 33554432 1024 2 0] 0] 0]
+          [5; 6; 7] 24 124.
+Definition ex_comb_ins : list cinput := [([[ex_comb_v]], mkTrex 7 99 99 99); ([[ex_comb_a]], mkTrex 9 5 5 5)].
+Example C11_combine_end_to_end_example :
+  Forall input_ok ex_comb_ins /\
+  exists ls fe, Forall2 (fun x l => read_input (snd x) (fst x) = Ok l) ex_comb_ins ls /\
+    64 * fulls_count ls + fulls_bytes ls + 40 * lenN [1; 2] + 200 < 2147483648 /\
+    combine_media [1; 2] (map fst ex_comb_ins) = Ok fe /\
+    read_output 1 0 0 0 24 fe = Ok (nth 0 ls []) /\ read_output 2 0 0 0 24 fe = Ok (nth 1 ls []) /\
+    map (fun l => map C05Model.fs_dts l) ls = [[500; 510; 520]; [0; 1024]].
+Proof.
+  split.
+  { repeat constructor; [exists ex_comb_v|exists ex_comb_a]; repeat split; reflexivity. }
+  eexists. eexists. split; [constructor; [vm_compute; reflexivity|constructor; [vm_compute; reflexivity|constructor]]|].
+  split; [vm_compute; reflexivity|]. split; [vm_compute; reflexivity|]. repeat split; vm_compute; reflexivity.
+Qed.
+
+(* ---- the init segments the tools write describe the same tracks (C11InitModel.v: per track id, handler, media
+   timescale, sample entries, trex) ----
+   Segmenter, one init per track (MakeInitSegments, text after fix 0e3bed8): WHENEVER it returns, every init carries
+   the handler and timescale of its input track and exactly one sample entry, which is one of the input's, under the
+   track id (1) that the media segments use, with a trex for that id. *)
+From V.c11 Require Import C11InitModel C11InitProofs.
+Theorem C11_segmenter_inits_never_drop : forall ts outs, seg_inits ts = Ok outs ->
+  Forall2 (fun t o => exists e tk, In e (it_entries t) /\ find_trak o 1 = Some tk /\ it_hdlr tk = it_hdlr t /\
+                      it_timescale tk = it_timescale t /\ it_entries tk = [e] /\
+                      find_trex o (seg_track_id false 0) = Some (create_trex 1)) ts outs.
+Proof. exact seg_inits_never_drop. Qed.
+Print Assumptions C11_segmenter_inits_never_drop.
+
+(* total form: video / audio tracks with one sample entry of a supported kind: the inits ARE written and describe the
+   same tracks (handler, timescale, the sample entry) *)
+Theorem C11_segmenter_inits_total : forall ts, forallb hdlr_ok ts = true -> forallb entry_supported ts = true ->
+  exists outs, seg_inits ts = Ok outs /\
+    Forall2 (fun t o => same_track t None o 1 /\ find_trex o 1 = Some (create_trex 1)) ts outs.
+Proof. exact seg_inits_total. Qed.
+Print Assumptions C11_segmenter_inits_total.
+
+(* the pinned text (before 0e3bed8) wrote an init segment WITHOUT a sample entry for e.g. an av01 track, exit status 0:
+   reproduced on the built tool with mp4/testdata/prog_8s.mp4 whose avc1 entry was replaced by av01 *)
+Theorem C11_segmenter_init_entry_dropped_refuted : exists t o,
+  hdlr_ok t = true /\ it_entries t <> [] /\ seg_inits_pinned [t] = Ok [o] /\
+  exists tk, in_traks o = [tk] /\ it_entries tk = [].
+Proof. exact seg_inits_pinned_refuted. Qed.
+Print Assumptions C11_segmenter_init_entry_dropped_refuted.
+
+(* multiplexed init (MakeMuxedInitSegment): track number i of the input is described under id i+1, the id
+   makeMultiTrackSegments writes into the tfhd of that track *)
+Theorem C11_segmenter_mux_init_same_tracks : forall ts o, seg_mux_init ts = Ok o ->
+  forall i t, nth_error ts i = Some t ->
+    let T := seg_track_id true i in
+    exists e tk, In e (it_entries t) /\ find_trak o T = Some tk /\ it_hdlr tk = it_hdlr t /\
+                 it_timescale tk = it_timescale t /\ it_entries tk = [e] /\ find_trex o T = Some (create_trex T).
+Proof. exact seg_mux_init_same. Qed.
+Print Assumptions C11_segmenter_mux_init_same_tracks.
+
+(* resegmenter: the init is passed through *)
+Theorem C11_resegment_init_same : forall i, reseg_init i = i.
+Proof. reflexivity. Qed.
+Print Assumptions C11_resegment_init_same.
+
+(* combine-segs (combineInitSegments): k >= 1 single-track inits whose first trex names the trak (the first input
+   with exactly one trex), pairwise different new ids: the combined init IS written, and under id ids[i] it holds
+   handler, timescale and sample entries of input i and a trex with input i's defaults: the trex that
+   C11_combine_end_to_end's reader uses *)
+Theorem C11_combine_init_same_tracks : forall ids xs,
+  NoDup ids -> length ids = length xs ->
+  match xs with x0 :: r => comb_in_ok true x0 && forallb (comb_in_ok false) r | [] => false end = true ->
+  exists o, comb_init ids xs = Ok o /\
+    forall T x, In (T, x) (combine ids xs) -> same_track (first_trak x) (first_trex x) o T.
+Proof. exact comb_init_same. Qed.
+Print Assumptions C11_combine_init_same_tracks.
+
+Example C11_init_example :
+  let v := mkITrak 7 H_VIDE 90000 [mkSE K_AVC [1; 2; 3]] in
+  let a := mkITrak 7 H_SOUN 48000 [mkSE K_MP4A [4; 5]] in
+  forallb hdlr_ok [v; a] = true /\ forallb entry_supported [v; a] = true /\
+  (comb_in_ok true (mkInit [v] (Some [mkITrex 7 1 512 0 65536])) && forallb (comb_in_ok false) [mkInit [a] (Some [mkITrex 7 1 1024 9 0])]) = true /\
+  comb_init [1; 2] [mkInit [v] (Some [mkITrex 7 1 512 0 65536]); mkInit [a] (Some [mkITrex 7 1 1024 9 0])]
+    = Ok (mkInit [mkITrak 1 H_VIDE 90000 [mkSE K_AVC [1; 2; 3]]; mkITrak 2 H_SOUN 48000 [mkSE K_MP4A [4; 5]]]
+                 (Some [mkITrex 1 1 512 0 65536; mkITrex 2 1 1024 9 0])).
+Proof. vm_compute. repeat split. Qed.
